@@ -2682,15 +2682,19 @@ def hc128_expansion_word_seeds(rng, per_pos=1):
     for i in range(16, 32):
         for tag, target in (("0", 0), ("1", 1), ("ones", M)):
             for _ in range(per_pos):
-                for attempt in range(80):
+                for attempt in range(40):
                     words = [rng.getrandbits(32) for _ in range(8)]
-                    j = (i - 16) % 4 + (4 if i - 16 >= 8 else 0)          # the seed word sitting at W[i-16]
                     ok = False
-                    for it in range(64):
-                        cur = expand(words, i)[i]
-                        if cur == target:
-                            ok = True; break
-                        words[j] = (words[j] + target - cur) & M
+                    # any seed word that enters W[i] (approximately) additively: correct it until the target is met
+                    for j in sorted(range(8), key=lambda q: q != (i - 16) % 4 + (4 if i - 16 >= 8 else 0)):
+                        ws = list(words)
+                        for it in range(48):
+                            cur = expand(ws, i)[i]
+                            if cur == target:
+                                ok = True; break
+                            ws[j] = (ws[j] + target - cur) & M
+                        if ok:
+                            words = ws; break
                     if ok:
                         out.append((f"expansion-word{i}={tag}", b"".join(w.to_bytes(4, "little") for w in words)))
                         break
